@@ -396,12 +396,12 @@ func (lb *LoadBalancer) processHealthCheckResponse(backend *Backend, resp *http.
 	backend.Mutex.Lock()
 	wasUnhealthy := !backend.IsHealthy
 	backend.IsHealthy = true
-	backend.Mutex.Unlock()
 
-	// Update metrics to reflect healthy status
+	// Update metrics before releasing the lock so a concurrent ejection cannot be overwritten
 	if lb.metricsCollector != nil {
 		lb.metricsCollector.UpdateBackendHealth(backend.Name, true)
 	}
+	backend.Mutex.Unlock()
 
 	if wasUnhealthy {
 		logging.L().Info().Str("backend", backend.Name).Msg("backend marked healthy via active check")
@@ -547,12 +547,12 @@ func (lb *LoadBalancer) IsBackendHealthy(backend *Backend) bool {
 		// Double-check after acquiring write lock to prevent race condition
 		if !backend.IsHealthy && time.Now().After(backend.UnhealthyUntil) {
 			backend.IsHealthy = true
-			backend.Mutex.Unlock()
 
-			// Update metrics to reflect healthy status
+			// Update metrics before releasing the lock so a concurrent ejection cannot be overwritten
 			if lb.metricsCollector != nil {
 				lb.metricsCollector.UpdateBackendHealth(backend.Name, true)
 			}
+			backend.Mutex.Unlock()
 
 			logging.L().Info().Str("backend", backend.Name).Msg("backend marked healthy")
 			return true
